@@ -5,6 +5,7 @@ import (
 	"fmt"
 	"os"
 	"path/filepath"
+	"strings"
 	"sync"
 	"sync/atomic"
 	"time"
@@ -317,6 +318,9 @@ func execute(c Case) ([]*execution, error) {
 			seenCtr: map[int]*api.Container{}, seenRes: map[int]*api.LinuxResources{}, seenPod: map[int]*api.PodSandbox{},
 		}
 		ex.pod = &api.PodSandbox{Id: "pod-" + ex.id.self, Name: "pod", Namespace: "ns", Annotations: map[string]string{"pa": "pv"}}
+		if c.HugePod {
+			ex.pod.Annotations["bulk"] = strings.Repeat("x", 4<<20+4<<10)
+		}
 		exs[k] = ex
 		f.brief(ex)
 		f.execs.Store(ex.id.self, ex)
